@@ -40,6 +40,8 @@ def doc(s, n):
     md = CI(CI); md["__type__"] = "metadata"; md["wms_title"] = s; md["k"] = "v"
     web["metadata"] = md
     m["web"] = web
+    sb = D("scalebar"); sb["intervals"] = n
+    m["scalebar"] = sb                 # a singleton child block whose name (8) is longer than every simple keyword of MAP (7): not counted for alignment
     sym = D("symbol"); sym["name"] = "sq"; sym["type"] = "vector"; sym["points"] = [(1, 1), (n, 2)]
     m["symbols"] = [sym]
     st = D("style"); st["symbol"] = 7; st["width"] = n; st["pattern"] = [(2, 4)]; st["color"] = [1, 2, 3]; st["colorrange"] = ["#000000", "#ffffff"]
@@ -51,7 +53,7 @@ def doc(s, n):
     ly2 = D("layer"); ly2["connectionoptions"] = CI(CI); ly2["connectionoptions"]["__type__"] = "connectionoptions"; ly2["connectionoptions"]["flatten"] = "YES"
     ly2["status"] = "on"
     m["layers"] = [ly, ly2]
-    m["shapepath"] = s                 # a simple keyword after nested blocks: its column is MAP's, not the last child's
+    m["fontset"] = s                   # a simple keyword after nested blocks: its column is MAP's, not the last child's
     cl["template"] = "t.html"          # likewise inside CLASS, after STYLE / LABEL
     return m
 
@@ -69,6 +71,7 @@ def spec(s, n, Q):
         (2, "kv", "IMAGEPATH", q("/tmp/"), "web"),
         (2, "open", "METADATA", None, None), (3, "kvq", q("wms_title"), q(s), "md"), (3, "kvq", q("k"), q("v"), "md"), (2, "end", "METADATA", None, None),
         (1, "end", "WEB", None, None),
+        (1, "open", "SCALEBAR", None, None), (2, "kv", "INTERVALS", repr(n), "scalebar"), (1, "end", "SCALEBAR", None, None),
         (1, "open", "SYMBOL", None, None),
         (2, "kv", "NAME", q("sq"), "symbol"), (2, "kv", "TYPE", "VECTOR", "symbol"),
         (2, "open", "POINTS", None, None), (3, "raw", "1 1", None, None), (3, "raw", repr(n) + " 2", None, None), (2, "end", "POINTS", None, None),
@@ -97,12 +100,12 @@ def spec(s, n, Q):
         (2, "open", "CONNECTIONOPTIONS", None, None), (3, "kvq", q("flatten"), q("YES"), "co"), (2, "end", "CONNECTIONOPTIONS", None, None),
         (2, "kv", "STATUS", "ON", "layer2"),
         (1, "end", "LAYER", None, None),
-        (1, "kv", "SHAPEPATH", q(s), "map"),
+        (1, "kv", "FONTSET", q(s), "map"),
         (0, "end", "MAP", None, None),
     ]
 
 # longest simple keyword per object (key-value blocks: the quoted key)
-LONGEST = {"map": 9, "web": 9, "md": 11, "symbol": 4, "layer": 10, "class": 8, "style": 10, "label": 4, "co": 9, "layer2": 6}
+LONGEST = {"scalebar": 9, "map": 7, "web": 9, "md": 11, "symbol": 4, "layer": 10, "class": 8, "style": 10, "label": 4, "co": 9, "layer2": 6}
 
 
 def layout(s, n, indent, spacer, Q, end_comment, align):
